@@ -55,6 +55,7 @@ def run(ctx, impl_only=False):
         w = ctx.rng.choice([lambda x: x, lambda x: [x, 0], lambda x: {'t': x}])
         pairs.append((w(t), w(u)))
     pairs += FAM.rich_pairs(ctx, n // 4)
+    pairs += FAM.hostile_pairs(ctx, n // 4)
     pairs += C01.flat_dict_pairs(ctx, n // 2)      # the domain of C08_flat_dict_inverse
     pairs += C01.nested_dict_pairs(ctx, n // 3)
     # sequences that gain or lose several trailing items (each direction sorts the same report in its own order), at the root and nested
